@@ -157,6 +157,34 @@ def analyse (code : BA) : Array Bool :=
       else go f (pc + 1) acc
   go code.size 0 (Array.replicate code.size true)
 
+/-! ### the bit-vector encoding of the analysis (`codeBitmap`, `bitvec.set`, `bitvec.set8` of analysis.go)
+
+`analyse` above is what the bit vector *means*; the definitions below are where `codeBitmap`
+*writes*: it allocates `len(code)/8 + 1 + 4` bytes and, for a PUSHn at `pc`, marks the n data
+positions starting at `pc+1` — eight at a time with `set8(p)` (bytes `p/8` and `p/8+1`), the rest
+one by one with `set(p)` (byte `p/8`) — also when the data is truncated by the end of the code. -/
+
+/-- `make(bitvec, len(code)/8+1+4)` -/
+def bitvecLen (code : BA) : Nat := code.size / 8 + 1 + 4
+
+/-- byte indices of the bit vector written for `numbits` data positions starting at `p` -/
+def pushWrites (p numbits : Nat) : List Nat :=
+  ((List.range (numbits / 8)).flatMap (fun k => [(p + 8 * k) / 8, (p + 8 * k) / 8 + 1])) ++
+  ((List.range (numbits % 8)).map (fun j => (p + 8 * (numbits / 8) + j) / 8))
+
+/-- all byte indices `codeBitmap(code)` writes, in scan order -/
+def bitmapWrites (code : BA) : List Nat :=
+  let rec go (fuel pc : Nat) : List Nat :=
+    match fuel with
+    | 0 => []
+    | f + 1 =>
+      if pc ≥ code.size then [] else
+      let op := (code.getD pc 0).toNat
+      if 0x60 ≤ op ∧ op ≤ 0x7f then
+        pushWrites (pc + 1) (op - 0x5f) ++ go f (pc + 1 + (op - 0x5f))
+      else go f (pc + 1)
+  go code.size 0
+
 /-- `Contract.validJumpdest` -/
 def validJumpdest (fr : Frame) (dest : Word) : Bool :=
   decide (dest < 2 ^ 64) && decide (dest < fr.code.size) &&
